@@ -200,6 +200,33 @@ fn text_for(ty: u8) -> BoxedStrategy<String> {
         1 => num.clone().prop_map(|v| format!("{}\n", v)),
         1 => num.clone().prop_map(|v| format!("{}f64", v)),
         1 => num.clone().prop_map(|v| format!("{}", v).replace('.', ",")),
+        // look-alike characters in the place of ASCII ones (typographic minus, fullwidth digits/sign, Arabic-Indic digits)
+        1 => (num.clone(), 0u8..5).prop_map(|(v, k)| {
+            let t = format!("{}", if k == 0 { -v.abs() } else { v });
+            match k {
+                0 => t.replace('-', "\u{2212}"),
+                1 => t.replace('-', "\u{FF0D}").replace('.', "\u{FF0E}"),
+                2 => t.chars().map(|c| if c.is_ascii_digit() { char::from_u32(0xFF10 + c as u32 - '0' as u32).unwrap() } else { c }).collect(),
+                3 => t.chars().map(|c| if c.is_ascii_digit() { char::from_u32(0x0660 + c as u32 - '0' as u32).unwrap() } else { c }).collect(),
+                _ => t.replace('e', "\u{0435}").replace('.', "\u{00B7}"),
+            }
+        }),
+        // well-formed numerals of unusual length: leading / trailing zeros, long fractions, zero exponents
+        2 => (num.clone(), 0u8..5, prop_oneof![1usize..40, 300usize..1100, 1000usize..5000]).prop_map(|(v, k, n)| {
+            let z = "0".repeat(n);
+            if !v.is_finite() {
+                return format!("{}{}", v, z);
+            }
+            let t = format!("{}", v);
+            let (sign, body) = if let Some(b) = t.strip_prefix('-') { ("-", b.to_string()) } else { ("", t.clone()) };
+            match k {
+                0 => format!("{}{}{}", sign, z, body),                                                      // leading zeros
+                1 => if body.contains('.') { format!("{}{}{}", sign, body, z) } else { format!("{}{}.{}", sign, body, z) }, // trailing zeros
+                2 => format!("{}{}e{}0", sign, body, z),                                                    // long zero exponent
+                3 => format!("{}{}e-{}", sign, body, z),                                                    // e-000...0
+                _ => format!("{}{}.{}1", sign, body.split('.').next().unwrap_or("0"), z),                 // tiny fraction after many zeros
+            }
+        }),
         3 => "[+-]?[0-9]{0,4}(\\.[0-9]{0,4})?([eE][+-]?[0-9]{1,3})?",
         2 => proptest::sample::select(vec![
             "", " ", "+", "-", ".", "-.", "e5", "1e", "inf", "-inf", "+inf", "infinity", "-Infinity", "INF", "nan", "NaN", "-nan", "+NaN",
@@ -223,6 +250,19 @@ fn json_for(ty: u8) -> BoxedStrategy<String> {
         1 => num.clone().prop_map(|v| format!(" {} ", v)),
         1 => num.clone().prop_map(|v| format!("[{}]", v)),
         1 => num.clone().prop_map(|v| format!("{{\"value\":{}}}", v)),
+        // long but well-formed JSON numbers (trailing zeros, long exponents) and surrounding whitespace
+        1 => (num.clone(), 0u8..3, prop_oneof![1usize..40, 300usize..1100, 1000usize..5000]).prop_map(|(v, k, n)| {
+            if !v.is_finite() {
+                return "null".to_string();
+            }
+            let z = "0".repeat(n);
+            let t = serde_json::to_string(&v).unwrap();
+            match k {
+                0 => if t.contains('.') && !t.contains('e') { format!("{}{}", t, z) } else { format!("{}{}", " ".repeat(n), t) },
+                1 => if !t.contains('e') { format!("{}e{}0", t, z) } else { format!("{}{}", t, " ".repeat(n)) },
+                _ => format!("{}{}{}", "\n".repeat(n.min(50)), t, "\t".repeat(n.min(50))),
+            }
+        }),
         2 => "-?(0|[1-9][0-9]{0,4})(\\.[0-9]{1,4})?([eE][+-]?[0-9]{1,3})?",
         2 => proptest::sample::select(vec![
             "null", "true", "NaN", "nan", "Infinity", "-Infinity", "inf", "1e999", "-1e999", "1e-999", "\"\"", "\"90\"", "[]", "{}", "", " ",
